@@ -51,7 +51,37 @@ type solveResult struct {
 // combination outright), so it never sees a quantifier.
 var qfOnly = map[string]bool{"z3-new-int": true}
 
+// zsaAxiom / zsaConst: the all-empty string array is a constant array for z3
+// (its quantified definition makes z3 wander) and an axiomatised constant for
+// cvc5 (which rejects constant arrays of an uninterpreted constant).
+const zsaMarker = " ;ZSA"
+const zsaConst = "(assert (= ZeroStrArr ((as const (Array (_ BitVec 64) Str)) Str_empty)))"
+
+func solverVariant(sp solverSpec, file string) string {
+	if !strings.HasPrefix(sp.name, "z3") {
+		return file
+	}
+	data, err := os.ReadFile(file)
+	if err != nil || !bytes.Contains(data, []byte(zsaMarker)) {
+		return file
+	}
+	lines := strings.Split(string(data), "\n")
+	for i, l := range lines {
+		if strings.HasSuffix(l, zsaMarker) {
+			lines[i] = zsaConst
+		}
+	}
+	out := file + ".z3"
+	if _, err := os.Stat(out); err != nil {
+		tmp := fmt.Sprintf("%s.%s.tmp", out, sp.name)
+		os.WriteFile(tmp, []byte(strings.Join(lines, "\n")), 0644)
+		os.Rename(tmp, out)
+	}
+	return out
+}
+
 func runSolver(sp solverSpec, file string, timeoutS int) solveResult {
+	file = solverVariant(sp, file)
 	if qfOnly[sp.name] {
 		if data, err := os.ReadFile(file); err != nil || bytes.Contains(data, []byte("(forall ")) || bytes.Contains(data, []byte("(exists ")) {
 			return solveResult{"unknown", sp.name, "skipped: query has quantifiers", 0}
@@ -222,6 +252,18 @@ func Discharge(obls []*Obl, timeoutS int, confirm bool, workers int) (disagreeme
 			g, _ := decide(dir, i+2000000, o2.Query(false), 25, false)
 			if g.status == "unsat" {
 				o.Result, o.Solver, o.TimeS = "unsat", g.solver+"(ground)", g.secs
+				return
+			}
+		}
+		if hasQ && !confirm {
+			// second attempt: only the quantified hypotheses whose triggers talk
+			// about memory the goal depends on (irrelevant invariants, e.g. of
+			// another mutex, make the solvers wander)
+			o3 := *o
+			o3.Focus = true
+			g, _ := decide(dir, i+3000000, o3.Query(false), 15, false)
+			if g.status == "unsat" {
+				o.Result, o.Solver, o.TimeS = "unsat", g.solver+"(focused)", g.secs
 				return
 			}
 		}
